@@ -7,6 +7,7 @@ import (
 
 	"verifharness/fwlib"
 	"verifharness/hlib"
+	"verifharness/inside"
 )
 
 const hour = uint64(3600 * 1000000000)
@@ -123,6 +124,8 @@ func gen(r *hlib.Rand, n int, tier, profile string, emit func(string, ...any)) {
 	ops := 0
 	if profile == "C17" {
 		ops += addrFamily(emit)
+		// the outbound packet path around the same firewall (engine `inside`, harness/inside)
+		ops += inside.Family(emit)
 	} else {
 		ops += caFamily(emit)
 	}
@@ -145,6 +148,12 @@ func gen(r *hlib.Rand, n int, tier, profile string, emit func(string, ...any)) {
 		w.EmitSetup(emit, 1000*hour, 1000*hour, 1000*hour, cache)
 		k := r.Range(8, 30)
 		for i := 0; i < k; i++ {
+			if profile == "C17" && r.Chance(1, 3) {
+				// a packet read from tun: consumeInsidePacket on an Interface around this firewall
+				emit("%s", inside.GenCase(r, w).Line())
+				ops++
+				continue
+			}
 			pi := r.Intn(len(w.Peers))
 			p, incoming := w.GenPacket(r, w.Peers[pi])
 			if pr, ok := w.GenProbe(r); ok && r.Chance(1, 3) {
@@ -187,7 +196,7 @@ func gen(r *hlib.Rand, n int, tier, profile string, emit func(string, ...any)) {
 }
 
 func newExec(t *testing.T) func([]string) string {
-	e := &fwlib.Exec{T: t}
+	e := &fwlib.Exec{T: t, Extra: inside.Extra}
 	return e.Do
 }
 
